@@ -6,7 +6,9 @@ import codecs, io, os, random, shutil, tempfile
 from . import gen_simfile as G
 
 DEFAULT_ENCODINGS = ["utf-8", "cp1252", "cp932", "cp949"]
-EXC_IDS = {"RuntimeError": 1, "KeyError": 2, "KeyboardInterrupt": 3, "SystemExit": 4, "ValueError": 5, "ZeroDivisionError": 6, "GeneratorExit": 7}
+EXC_IDS = {"RuntimeError": 1, "KeyError": 2, "KeyboardInterrupt": 3, "SystemExit": 4, "ValueError": 5, "ZeroDivisionError": 6, "GeneratorExit": 7,
+           "UnicodeEncodeError": 8, "OSError": 9, "AttributeError": 10, "TypeError": 11}
+LAST_RAISED = [None]           # the very object the edit script raised, for "propagates unchanged"
 EXC_BY_ID = {v: k for k, v in EXC_IDS.items()}
 
 _rep = {}
@@ -258,8 +260,12 @@ def apply_ops(sf, ops):
             if op[1] == "CancelMutation":
                 raise simfile.CancelMutation()
             cls = {"RuntimeError": RuntimeError, "KeyError": KeyError, "KeyboardInterrupt": KeyboardInterrupt, "SystemExit": SystemExit,
-                   "ValueError": ValueError, "ZeroDivisionError": ZeroDivisionError, "GeneratorExit": GeneratorExit}[op[1]]
-            raise cls("from the body")
+                   "ValueError": ValueError, "ZeroDivisionError": ZeroDivisionError, "GeneratorExit": GeneratorExit,
+                   "OSError": OSError, "AttributeError": AttributeError, "TypeError": TypeError}.get(op[1])
+            # classes the save path itself may raise are raised by the body too: they are the body's, and propagate as they are
+            e = UnicodeEncodeError("ascii", "caf\xe9 from the body", 3, 4, "raised by the body") if op[1] == "UnicodeEncodeError" else cls("from the body")
+            LAST_RAISED[0] = e
+            raise e
 
 
 # ---------------------------------------------------------------- directory trees (C19, C20)
